@@ -66,6 +66,50 @@ func TestVerifC17(t *testing.T) {
 			}
 		}
 	}
+	// every pair of dropped datagrams among the first ones, on the variants whose flights span several
+	// datagrams: a timeout followed by the partial arrival of the peer's next flight (new data that does
+	// not complete the flight restores the initial interval), a partial flight followed by a timeout, ...
+	npair := 12
+	if vIsThorough() {
+		npair = 20
+	}
+	for _, vn := range []string{"cert", "cert-clientauth", "cert-mtu200", "cert-clientauth-mtu150", "psk-cid-mtu40", "cert-resumed"} {
+		v, ok := byName[vn]
+		if !ok {
+			continue
+		}
+		for i := 0; i < npair; i++ {
+			for j := i + 1; j < npair; j++ {
+				m := make([]string, j+1)
+				for k := range m {
+					m[k] = "pass"
+				}
+				m[i], m[j] = "drop", "drop"
+				jobs = append(jobs, job{v, m, c02Opt{}})
+			}
+		}
+	}
+	// the client times out k times on its cookie ClientHello (copies dropped), then receives only the
+	// FIRST datagram of the server's multi-datagram flight and nothing more for a long time: new data
+	// that does not complete the awaited flight restores the initial interval all the same
+	for _, vn := range []string{"cert", "cert-clientauth", "cert-mtu200", "cert-clientauth-mtu150", "psk-cid-mtu40"} {
+		v, ok := byName[vn]
+		if !ok {
+			continue
+		}
+		for k := 1; k <= 3; k++ {
+			for _, iv := range []time.Duration{100 * time.Millisecond, time.Second} {
+				m := []string{"pass", "pass"} // ClientHello, HelloVerifyRequest
+				for c := 0; c < k; c++ {
+					m = append(m, "drop") // copies 1..k of the ClientHello with the cookie
+				}
+				// copy k+1 has index 2+k and is delivered; the server flight starts at index 3+k
+				jobs = append(jobs, job{v, m, c02Opt{
+					Interval: iv, SilenceUntil: 60 * iv, SilenceTo: "client", SilenceFrom: 4 + k, Limit: 60*iv + 500*time.Second,
+				}})
+			}
+		}
+	}
 	// silence starting after the handshake made some progress: random masks + later silence window
 	n := 40
 	if vIsThorough() {
